@@ -4,10 +4,41 @@ import json, os
 V = os.path.dirname(os.path.dirname(os.path.abspath(__file__)))
 ALL = [f"C{i:02d}" for i in range(1, 21)]
 
+CH = "CrossHair symbolic execution (z3) of the real functions on a scratch copy of the working tree, one process per structural choice; reachability twin per condition; counterexamples replayed concretely and through the public API"
 CLAIMED = {
+ "C03": dict(
+   technique=CH + "; frame lemma over an arbitrary lexer flag state",
+   text="Bounded symbolic checking. C03.reset: with every lexer flag symbolic (arbitrary leftover of the previous statement) the real set_default_flags_in_lexer() followed by the real token rule gives exactly the pristine result for each of the 117 vocabulary words - so no lexical mode leaks into the next statement.",
+   note="Trusted: lexer determinism in (word, flags); PLY creating fresh stacks per parse(). Line-level statement splitting (CH-pre) is a separate obligation family; lexer.state of the input.regex path is outside.",
+   design="3/C03"),
+ "C05": dict(
+   technique=CH + "; relational (cased vs upper-case spelling) postcondition over token type, value and resulting lexer flags",
+   text="Bounded symbolic checking of the real lexer rules in 28 lexical contexts: for every vocabulary word (112 grammar keywords + identifiers) and every case style in the tier's range the token type, keyword value and resulting flag state equal those of the upper-case spelling, identifiers keep their spelling. Thorough adds all 2^n masks for words of <= 6 letters in six contexts.",
+   note="Trusted: PLY master-regex dispatch, CrossHair/z3. Assumes blank-separated words reach the lexer (whitespace / line-layout obligations of CH-pre). A lexer-level difference is reported only if some completion of the context shows a different public result.",
+   design="3/C05"),
+ "C06": dict(
+   technique=CH + "; name-position typing lemma per context, p_id delimiter lemma, object-identity lemma for name-copying actions",
+   text="Bounded symbolic checking: in 10 name contexts (column positions, key / unique / foreign-key / reference / index column lists at depth 1-2, after a dot) every vocabulary word outside the 13 excluded openers, in the tier's case styles, is an ID token with its exact spelling; p_id with symbolic body x 4 delimiter styles x normalize_names; name-copying actions return the very objects they got.",
+   note="Trusted: token-value contract, LR flow of names through the single id production (paper until the LR lemma lands). Outside: names with blanks/dots inside delimiters, keyword-shaped table/schema names.",
+   design="3/C06"),
+ "C10": dict(
+   technique=CH + "; per-mode cross-mode relational postcondition against output_mode='sql'",
+   text="Bounded symbolic checking of the real Output/TableData/BaseData/dialect classes, one process per output mode (15): a table with a symbolic choice among the 41 catalogued dialect keys (value kind str/list/dict), and table + sequence + optional CREATE INDEX + optional ALTER ADD FOREIGN KEY (1-2 columns, optional schema): no exception, same entities, common fields equal to mode sql, key at top level exactly in its documented modes.",
+   note="Trusted: act->out statement shapes copied from the real parser; catalog/dialect_keys.json as the documentation of modes; stubs: dialect class memoised per process, filter_out_output executed natively on concrete arguments. Outside: >2 columns, per-dialect column extras.",
+   design="3/C10"),
+ "C12": dict(
+   technique=CH + "; shape predicate + pure-Python jsonable() + json_dump equality through the real run()",
+   text="Bounded symbolic checking per output mode (15): through the real Parser.run (parse_data stubbed) and Output, for symbolic column count, schema, index, ALTER FK kind and group_by_type: every documented key present with the stated Python types, primary_key within the column names, whole result JSON-serialisable, json_dump=True equal to json.dumps of the plain result.",
+   note="Trusted: as C10; json.dumps itself is executed concretely (C boundary). Outside: entity kinds other than table/sequence in this harness.",
+   design="3/C12"),
+ "C13": dict(
+   technique=CH + "; flat vs grouped run() compared for symbolic entity kinds",
+   text="Bounded symbolic checking of the real Parser.run/Output.format/group_by_type_result: 0..3 entities whose kinds are symbolic (9 kinds incl. SET properties with possibly empty value and comments), modes sql/bigquery/hql (thorough: all 15): grouped result equals the order-preserving regrouping of the flat result, six buckets always present.",
+   note="Trusted: statement shapes copied from the real parser; per-entity loop extends beyond 3 entities by paper induction. Outside: an entity with two marker keys.",
+   design="3/C13"),
  "C17": dict(
-   technique="CrossHair symbolic execution (z3) of the real p_expression_seq / LALR driver per option form; uninterpreted-function abstraction of int(); reachability twins; public-API replay",
-   text="Bounded symbolic checking: for each of the 12 option forms the real semantic action and the real LALR driver+tables are executed by CrossHair over all signs / digit strings (interpreted int: <=2 digits quick, <=3 thorough, plus the 19-digit band around 2**63; uninterpreted int: any text up to 6/10 chars) and over arbitrary pre-states of the sequence dict; verdict 'Confirmed over all paths' or a counterexample replayed through DDLParser(...).run().",
+   technique=CH + "; uninterpreted-function abstraction of int(); real LALR driver behind a stub lexer; lexer keyword lemma in the sequence context",
+   text="Bounded symbolic checking: for each of the 12 option forms the real semantic action and the real LALR driver+tables are executed by CrossHair over all signs / digit strings (interpreted int: <=2 digits quick, <=3 thorough, plus the 19-digit band around 2**63; uninterpreted int: any text up to 6/10 chars) and over arbitrary pre-states of the sequence dict; the ten option words are typed as keywords in any case style in the sequence context.",
    note="Trusted: CPython int(), PLY driver, CrossHair models, z3; composition of one-option steps into any order/number rests on the LR step lemma (paper argument until the LR engine lands). Outside: numerals beyond the digit bounds under interpreted int, options not named in the property.",
    design="3/C17"),
 }
